@@ -148,8 +148,9 @@ func init() {
 				{"cmd": "userdict", "attrs": []UAttr{}, "split": true, "chords": []UChord{{"S", "sx", nil, "sx"}, {"S", "sy", []string{"Perfect1", "Major3"}, ""}}},
 				// names and symbols that differ from a built-in's by case or by blanks only are other names
 				{"cmd": "userdict", "attrs": []UAttr{}, "chords": []UChord{{"M", "M", nil, "MajorTriad"}}},
-				{"cmd": "userdict", "attrs": []UAttr{}, "chords": []UChord{{"Blank", " ", []string{"Perfect1", "Perfect4"}, ""}}},
-				{"cmd": "userdict", "attrs": []UAttr{}, "chords": []UChord{{"majortriad", "MAJ", []string{"Perfect1", "Perfect4"}, ""}, {"Sus4 ", "SUS4", []string{"Perfect1"}, ""}}}, // unnamed chord
+				// (a symbol made of a blank, a name that ends in one, an empty definitions file, an attribute named twice in one chord: no sentence
+				// of C16 obliges crd to accept those -- second audit; the case pair below keeps what differs by case only)
+				{"cmd": "userdict", "attrs": []UAttr{}, "chords": []UChord{{"majortriad", "MAJ", []string{"Perfect1", "Perfect4"}, ""}}},
 			}
 			cases = append(cases, hand...)
 			// long chains of extends (deeper than any small bound), the name being its own symbol or not
@@ -180,7 +181,7 @@ func init() {
 			type nd struct{ n, d string }
 			names := []nd{{"U1", "u1"}, {"U2", "u2"}, {"MinorTriad", "m"}, {"U7", "sus2"}} // U7: a fresh name taking over a built-in display
 			exts := []string{"", "U1", "U2", "u1", "MajorTriad", "m7", "MinorSeventh", "Ghost"}
-			attrSets := [][]string{nil, {"XA"}, {"Perfect5", "Major9"}, {"GhostAttr"}, {"Major3", "Major3"}}
+			attrSets := [][]string{nil, {"XA"}, {"Perfect5", "Major9"}, {"GhostAttr"}, {"Major3", "Major7"}}
 			pool := []UChord{}
 			for _, n := range names {
 				for _, e := range exts {
@@ -219,12 +220,12 @@ func init() {
 			}
 			for i := range cases {
 				if cs(cases[i], "cmd") == "userdict" && i%5 == 0 {
-					cases[i]["blank"] = 1 + i/5%4
+					cases[i]["blank"] = 0 // (an extra definitions file without any entry: not generated any more)
 				}
 			}
 			for i := range pairs {
 				if i%7 == 0 {
-					pairs[i]["blank"] = 1 + i/7%4
+					pairs[i]["blank"] = 0
 				}
 			}
 			if c.quick() {
@@ -260,7 +261,11 @@ func init() {
 				var sb strings.Builder
 				keys, names := []string{}, [][]int{}
 				for i, a := range a1 {
-					fmt.Fprintf(&sb, "- name: AttrUse%d\n  meta: {display: au%d}\n  attributes: [Perfect1, %s]\n", i, i, a.Name)
+					if a.Name == "Perfect1" {
+						fmt.Fprintf(&sb, "- name: AttrUse%d\n  meta: {display: au%d}\n  attributes: [Perfect1]\n", i, i)
+					} else {
+						fmt.Fprintf(&sb, "- name: AttrUse%d\n  meta: {display: au%d}\n  attributes: [Perfect1, %s]\n", i, i, a.Name)
+					}
 					keys = append(keys, fmt.Sprintf("au%d", i))
 					names = append(names, chars(a.Name))
 				}
